@@ -304,6 +304,11 @@ def parents_in_the_pipeline(ctx, n):
             page = r.choice(["http://site.example/dir/sub/page%d.html", "https://www.other.example/a/b/p%d", "http://site.example/p%d/"]) % k
             chain = [x % k for x in r.sample(["http://start.example/s%d", "http://site.example/old/deep/path/s%d", "https://start.example/x/s%d"], r.choice([0, 1, 2]))]
             seed = chain[0] if chain else page
+            # the queue hands the seed over as it was found: not necessarily in canonical spelling
+            spell = r.choice([lambda u: u, lambda u: u, lambda u: u.replace("://", "://", 1).replace("site.example", "SITE.Example").replace("start.example", "START.example").replace("www.other", "WWW.Other"),
+                              lambda u: u.replace("http://site.example/", "http://site.example:80/").replace("https://start.example/", "https://start.example:443/"),
+                              lambda u: u + "#top", lambda u: u.replace(".example/", ".example/./", 1)])
+            seed_text = spell(seed)
             site = stage.Site()
             for here, there in zip(chain, chain[1:] + [page]):
                 site.add(here, status=r.choice([301, 302]), location=there, body="moved")
@@ -316,9 +321,17 @@ def parents_in_the_pipeline(ctx, n):
                      body="#EXTM3U\n#EXT-X-VERSION:3\n#EXT-X-TARGETDURATION:4\n" + "".join("#EXTINF:4,\n%s\n" % x for x in segs) + "#EXT-X-ENDLIST\n")
             cfg = {"includeHosts": [], "includeStrings": [], "excludeHosts": list(stage.DEFAULT_EXCLUDED), "excludeStrings": [], "regexes": [], "disableAssets": False,
                    "maxHops": 0, "maxRedirect": 3, "disableSeencheck": False, "domainsCrawl": [], "disableHTMLTag": [], "captureAlternatePages": False}
-            act, tree, trace = stage.run_seed(run_, cfg, site, seed, seed_id="par%d" % k, max_passes=8)
+            cfg["viaWorker"] = k % 2 == 0        # through the real stage worker (goroutine and channels) or through preprocess() directly
+            act, tree, trace = stage.run_seed(run_, cfg, site, seed_text, seed_id="par%d" % k, max_passes=8)
             got = {q["canon"] for q in trace["requests"]}
-            rp = {"domain": "stage", "cfg": cfg, "seed": seed, "site": site.pages}
+            rp = {"domain": "stage", "cfg": cfg, "seed": seed_text, "site": site.pages}
+            # every request is built for the canonical form the normaliser gives for that reference (on a fresh object)
+            stale = [q for q in trace["requests"] if q.get("oracle") and q["oracle"].get("canon") and q["oracle"]["canon"] != q["canon"]]
+            if stale:
+                q0 = stale[0]
+                ctx.violation("the request for %r (seed text %r) is built for %s, the canonical form is %s" % (
+                    q0["id"], seed_text, q0["canon"], q0["oracle"]["canon"]), dict(rp, url=q0["oracle"]["canon"]))
+                continue
             ctx.case("parents" + json.dumps([seed, page, rel]), len(chain) >= 1)
             ctx.count("pipeline-parents")
             want = [(page, x) for x in rel + [plist]] + ([(pabs, x) for x in segs] if pabs in got else [])
